@@ -372,54 +372,123 @@ def _run_event(cfg, prefix):
 
 
 def _event_oracle(env, cfg):
+    """The recorded history must be a history of an atomic flag: there is an
+    order of the operations' effect points, each inside its call interval,
+    in which is_set returns the flag, a wait that returned True saw it set
+    at some point of its interval, and a wait that returned False (or never
+    returned) took effect at some point of its call after which the flag was
+    not set again before the deadline (for ever).  An untimed wait never
+    returns False and a timed one not before its deadline."""
     log = env.log
     status = env.sched.status
-    has_clear = any(op == 'clear' for sc in cfg['actors'] for op in sc)
-    sets_end = [k for k, e in enumerate(log) if e[0] == 'set_end']
-    sets_begin = [k for k, e in enumerate(log) if e[0] == 'set_begin']
-    begun = {}
-    isb = {}
+    INF = len(log) + 10
+    open_ = {}
+    ops = []          # (kind, begin, end, extra)
     for k, e in enumerate(log):
-        if e[0] == 'wait_begin':
-            begun[e[1]] = (k, e)
-        elif e[0] == 'wait_end':
-            kb, eb = begun.pop(e[1])
-            r, t = e[2], e[3]
-            if r not in (True, False):
-                return 'Event.wait returned %r' % (r,)
-            if not has_clear:
-                done_before = [s for s in sets_end if s < k]
-                began_before = [s for s in sets_begin if s < k]
-                if r is False and done_before:
-                    # some set() completed before the wait returned: the
-                    # flag was set at the waiter's final test
-                    return ('Event.wait returned False although set() '
-                            'completed before it returned')
-                if r is True and not began_before:
-                    return 'Event.wait returned True but set() never began'
+        tag = e[0]
+        if tag.endswith('_begin'):
+            open_[(tag[:-6], e[1])] = (k, e)
+        elif tag.endswith('_end'):
+            kind = tag[:-4]
+            kb, eb = open_.pop((kind, e[1]))
+            if kind == 'wait':
+                r, t = e[2], e[3]
+                if r not in (True, False):
+                    return 'Event.wait returned %r' % (r,)
                 if r is False:
                     if t is None:
                         return 'untimed Event.wait returned False'
-                    if e[-1] - eb[-1] < t - 1e-9:
+                    elif e[-1] - eb[-1] < t - 1e-9:
                         return 'Event.wait(%.2f) gave up after %.3f' % (
                             t, e[-1] - eb[-1])
-        elif e[0] == 'is_begin':
-            isb[e[1]] = k
-        elif e[0] == 'is_end' and not has_clear:
-            if e[2] is False and [s for s in sets_end if s < isb[e[1]]]:
-                return 'is_set() False after a completed set()'
-            if e[2] is True and not [s for s in sets_begin if s < k]:
-                return 'is_set() True before any set()'
-    if begun and status in ('done', 'deadlock'):
-        # a waiter never returned
-        for j, (kb, eb) in begun.items():
-            if [s for s in sets_end if s > kb] and not has_clear:
-                return ('lost wake-up: Event.wait of actor %d never returned '
-                        'although set() completed after it began' % j)
-            if eb[2] is not None:
-                return 'timed Event.wait of actor %d never returned' % j
-    if status == 'deadlock' and not begun:
+                if r:
+                    ops.append(('wT', kb, k, None))
+                else:
+                    # the interval that must be free of set(): begin ..
+                    # deadline (first log entry at or after it)
+                    kd = k
+                    if t is not None:
+                        for q in range(kb + 1, k + 1):
+                            if log[q][-1] >= eb[-1] + t - 1e-9:
+                                kd = q
+                                break
+                    ops.append(('wF', kb, kd, (e[1], t)))
+            elif kind == 'is':
+                if e[2] not in (True, False):
+                    return 'is_set returned %r' % (e[2],)
+                ops.append(('is', kb, k, e[2]))
+            else:
+                ops.append((kind, kb, k, None))
+    pending_other = []
+    if status in ('done', 'deadlock'):
+        for (kind, j), (kb, eb) in open_.items():
+            if kind == 'wait':
+                if eb[2] is not None:
+                    return 'timed Event.wait of actor %d never returned' % j
+                ops.append(('wF', kb, INF, (j, None)))
+            else:
+                pending_other.append((kind, j))
+    if status == 'deadlock' and (pending_other or not open_):
         return 'deadlock outside wait: %r' % (env.sched.describe(),)
+    # instantaneous events: (kind, lo, hi, extra, link)
+    evs = []
+    for i, (kind, kb, ke, x) in enumerate(ops):
+        if kind == 'wF':
+            # the call may take effect (first look at the flag) anywhere
+            # between its begin and its end
+            evs.append(('wb', kb, ke, i))
+            evs.append(('we', ke, ke, i))
+        else:
+            evs.append((kind, kb, ke, x))
+    n = len(evs)
+    if n > 12:
+        return None
+
+    def search(placed, flag, openw):
+        if len(placed) == n:
+            return True
+        rest = [i for i in range(n) if i not in placed]
+        lim = min(evs[i][2] for i in rest)      # someone must be placed
+        for i in rest:                          # before any event starting
+            kind, lo, hi, x = evs[i]            # after ``lim``
+            if lo > lim:
+                continue
+            f, ow = flag, openw
+            if kind == 'set':
+                if openw:
+                    continue
+                f = True
+            elif kind == 'clear':
+                f = False
+            elif kind == 'is':
+                if x != flag:
+                    continue
+            elif kind == 'wT':
+                if not flag:
+                    continue
+            elif kind == 'wb':
+                if flag:
+                    continue
+                ow = openw + 1
+            elif kind == 'we':
+                if not any(evs[q][0] == 'wb' and evs[q][3] == x
+                           for q in placed):
+                    continue
+                ow = openw - 1
+            if search(placed | {i}, f, ow):
+                return True
+        return False
+    if not search(frozenset(), False, 0):
+        hist = [(k_, lo, hi) for k_, lo, hi, _ in evs]
+        bad = [o for o in ops if o[0] == 'wF']
+        why = ''
+        if any(o[2] == INF for o in bad):
+            why = ' (a waiter never returned)'
+        return ('Event history is not a history of an atomic flag%s: no '
+                'order of effect points inside the call intervals explains '
+                'the results: %r' % (why, [
+                    (o[0], o[1], o[2] if o[2] != INF else 'never', o[3])
+                    for o in ops]))
     return None
 
 
